@@ -113,6 +113,8 @@ mod request;
 mod response;
 mod router;
 mod server;
+#[cfg(feature = "verif_hooks")]
+pub mod verif;
 use crate::common::ascii;
 use crate::common::headers;
 
